@@ -419,6 +419,30 @@ fn run_case(case: &str, wasm: &[u8], kind_imp: bool, pick: u64, seed: u64, stats
             }
         }
     }
+    // the replacement reads *its own* parameters: every argument the generated body reads is a
+    // `local.get` of an index below the parameter count in the emitted function (scratch locals and
+    // nothing else sit above)
+    if !kind_imp {
+        if let Some(pos) = a.exports.iter().position(|e| e.kind == Space::Func && e.index == target) {
+            if let Some(e2) = b.exports.get(pos) {
+                let np = a.func_type(target).and_then(|t| a.types.get(t as usize)).map(|t| t.0.len()).unwrap_or(0);
+                let want_reads = match &body {
+                    Body::Unreachable => 0,
+                    Body::Forward(_) => np,
+                    Body::Plain(_, res) => res.iter().filter(|r| matches!(r, Res::Arg(_))).count(),
+                };
+                let bni = b.n_imported(Space::Func);
+                if e2.index >= bni {
+                    if let Some(code) = b.code.get((e2.index - bni) as usize) {
+                        let got_reads = code.ops.iter().filter(|o| o.name == "LocalGet" && matches!(o.args.first(), Some(decode::Arg::Ref(Space::Local, i)) if (*i as usize) < np)).count();
+                        if got_reads != want_reads {
+                            fails.push(("C18:replacement-does-not-read-its-parameters".into(), format!("the generated body reads {} arguments, the emitted replacement has {} reads of its {} parameters", want_reads, got_reads, np)));
+                        }
+                    }
+                }
+            }
+        }
+    }
     let want_funcs = a.count(Space::Func) + if kind_imp { 0 } else { 1 };
     if b.count(Space::Func) != want_funcs {
         fails.push(("C18:function-count".into(), format!("{} functions after the edit, expected {}", b.count(Space::Func), want_funcs)));
